@@ -958,9 +958,9 @@ Proof.
     try (apply INC; cbn; tauto); try (cbn; tauto).
 Qed.
 
-Theorem model_P_env i o : P_env (model_obs (i, o)) = true.
+Theorem model_P_env i o : P_env (model_run_obs (i, o)) = true.
 Proof.
-  unfold P_env, model_obs. cbn [ob_envs].
+  unfold P_env, model_run_obs. cbn [ob_envs].
   destruct (o_started (exec i)); [|reflexivity].
   apply forallb_forall. intros v Hv. apply repeat_spec in Hv. subst v.
   apply view_points_to_own. unfold query_vars. intros k Hk. apply in_or_app. left.
@@ -969,10 +969,10 @@ Qed.
 
 (* the logic half of the property holds of the model for every input
    (of the OS half the environment clause is [model_P_env]; the rest is taken over from the
-   implementation's observation, see C12_Corr.model_obs) *)
-Theorem model_P_logic i o : P_logic i (model_obs (i, o)) = true.
+   implementation's observation, see C12_Corr.model_run_obs) *)
+Theorem model_P_logic i o : P_logic i (model_run_obs (i, o)) = true.
 Proof.
-  unfold P_logic, model_obs. rewrite exec_is_run.
+  unfold P_logic, model_run_obs. rewrite exec_is_run.
   cbn [ob_bad ob_started ob_status ob_tmp_after ob_metric_applied ob_patch_applied].
   rewrite run_remaining. cbn [negb andb N.eqb]. rewrite andb_true_r.
   destruct (o_started (run i)) eqn:S.
